@@ -47,6 +47,17 @@ func (c *constExpr) Exit(node *Node) {
 					param = nil
 				case *IntegerNode:
 					param = a.Value
+					// The checker retypes an integer literal to the numeric
+					// type of the parameter it is passed to; call the function
+					// with the value the compiled program would have pushed.
+					if t := a.Type(); t != nil {
+						switch t.Kind() {
+						case reflect.Int8, reflect.Int16, reflect.Int32, reflect.Int64,
+							reflect.Uint, reflect.Uint8, reflect.Uint16, reflect.Uint32, reflect.Uint64,
+							reflect.Float32, reflect.Float64:
+							param = reflect.ValueOf(a.Value).Convert(t).Interface()
+						}
+					}
 				case *FloatNode:
 					param = a.Value
 				case *BoolNode:
